@@ -33,15 +33,16 @@ const (
 )
 
 type workStep struct {
-	PC       uint64
-	Op       byte
-	Gas      uint64
-	Cost     uint64
-	Depth    int
-	Alloc    uint64
-	Reads    uint64
-	Retained uint64
-	Err      bool
+	PC        uint64
+	Op        byte
+	Gas       uint64
+	Cost      uint64
+	Depth     int
+	Alloc     uint64
+	Reads     uint64
+	Retained  uint64
+	Err       bool
+	Announced uint64 // journal instructions: string length announced by storage (VRJNAL) or memory (key journals)
 }
 
 // workRec is an allocation-free debug tracer: it samples cumulative work counters at every step callback.
@@ -69,7 +70,7 @@ func (r *workRec) mark(pc uint64, op byte, gas, cost uint64, depth int, err bool
 	if r.tracer != nil {
 		ret = r.tracer.VerifRetainedBytes()
 	}
-	r.steps = append(r.steps, workStep{pc, op, gas, cost, depth, r.allocs(), r.db.Reads, ret, err})
+	r.steps = append(r.steps, workStep{PC: pc, Op: op, Gas: gas, Cost: cost, Depth: depth, Alloc: r.allocs(), Reads: r.db.Reads, Retained: ret, Err: err})
 }
 
 func (r *workRec) CaptureTxStart(uint64) {}
@@ -82,6 +83,41 @@ func (r *workRec) CaptureEnter(avm.OpCode, common.Address, common.Address, []byt
 func (r *workRec) CaptureExit([]byte, uint64, error) {}
 func (r *workRec) CaptureState(pc uint64, op avm.OpCode, gas, cost uint64, scope *avm.ScopeContext, rData []byte, depth int, err error) {
 	r.mark(pc, byte(op), gas, cost, depth, err != nil)
+	if b := byte(op); b >= 0xe0 && b <= 0xe7 && len(r.steps) > 0 && err == nil {
+		st := scope.Stack.Data()
+		at := func(i int) *uint256.Int {
+			if len(st) > i {
+				return &st[len(st)-1-i]
+			}
+			return nil
+		}
+		var ann uint64
+		switch b {
+		case 0xe7:
+			if slot := at(0); slot != nil {
+				head := r.db.StateDB.GetState(scope.Contract.Address(), common.Hash(slot.Bytes32()))
+				if l, _, ok := gen.StringLen(head); ok && l.IsUint64() {
+					ann = l.Uint64()
+				} else if ok {
+					ann = 1 << 62
+				}
+			}
+		case 0xe0, 0xe1, 0xe2, 0xe3:
+			i := 0
+			if b == 0xe2 || b == 0xe3 {
+				i = 2
+			}
+			if ptr := at(i); ptr != nil && ptr.IsUint64() {
+				mem := scope.Memory.Data()
+				if p := ptr.Uint64(); p <= uint64(len(mem)) && uint64(len(mem))-p >= 32 {
+					if l := new(uint256.Int).SetBytes(mem[p : p+32]); l.IsUint64() {
+						ann = l.Uint64()
+					}
+				}
+			}
+		}
+		r.steps[len(r.steps)-1].Announced = ann
+	}
 }
 func (r *workRec) CaptureFault(uint64, avm.OpCode, uint64, uint64, *avm.ScopeContext, int, error) {}
 
@@ -150,6 +186,13 @@ func c20Exec(cs *world.Case, target byte) c20Verdict {
 		cls := opClass(s.Op)
 		if target != 0 && (s.Op == asm.CALL || s.Op == asm.STATICCALL || s.Op == asm.DELEGATECALL || s.Op == asm.CALLCODE) {
 			cls = fmt.Sprintf("precompile_%#x", target)
+		}
+		// work beyond what the announced string itself requires is a different finding than the flat fee
+		if s.Op == 0xe7 && reads > (s.Announced+31)/32+2 && reads > c20ReadsBase+charged/c20ReadsPerGas {
+			cls += ":more_reads_than_words"
+		}
+		if (cls == "key_journal") && (alloc > 4*s.Announced+c20AllocBase || retained > 2*s.Announced+1024) {
+			cls += ":more_than_the_string"
 		}
 		switch {
 		case reads > c20ReadsBase+charged/c20ReadsPerGas:
